@@ -21,13 +21,14 @@ RULE = (
     "subscriber, listener; table guards that never read the context; no raise so that a skipped action cannot change "
     "later selection) x histories of <=10 events. The fault-free run records the N call sites of user code; each chosen "
     "site (or pair) is made to raise InjectedFault and the run is repeated. Oracle: hook/subscriber/listener fault -> "
-    "identical observations and identical log; action or built-in-callback fault -> identical configurations, status, "
+    "identical observations and identical log - including what a second, never-failing subscriber registered behind the "
+    "faulted one is shown; action or built-in-callback fault -> identical configurations, status, "
     "transitions, events, and an action log equal to the twin's minus one contiguous block that starts at the faulted "
     "action and lies inside its own (innermost) action list, context equal modulo counters assigned by the skipped "
     "remainder, on_action_error called once for it; then the on_action_error hook reporting that fault is made to raise "
     "too (a site that exists only in the faulted run) and nothing may change relative to the single-fault run. Campaign abort: machines with one injected aborting feature "
     "(unimplemented action at a drawn list position, unregistered service, unresolvable target, async action under the "
-    "sync engine) plus timer templates; oracle: error is an XStateMachineError subclass raised by sync send()/contained "
+    "sync engine; on `on` and on `always` transitions) plus timer templates; oracle: error is an XStateMachineError subclass raised by sync send()/contained "
     "by async, configuration equals the one before the aborted transition, the next event is processed, an `after` "
     "timer of a rolled-back state still fires - exactly once, also when the abort struck in a child's exit list before "
     "the timed/invoking parent was reached (async: its service keeps exactly one running instance); and nothing "
@@ -86,11 +87,13 @@ def _abort_case(draw, tier):
     cands = []
     for sid, s in walk_states(spec):
         for fam, key, i, t in state_transitions(s):
-            if not t.get("null") and fam == "on":
+            if not t.get("null") and fam in ("on", "always"):
                 cands.append((sid, fam, key, i))
     if not cands:
         return {"kind": "abort", "engine": engine, "spec": spec, "history": hist, "bad": None}
-    sid, fam, key, i = d.pick(cands)
+    alw = [c for c in cands if c[1] == "always"]
+    sid, fam, key, i = d.pick(alw) if alw and d.chance(50) else d.pick(cands)
+    bad_mk = None
     bad = d.pick(["missing-action", "unresolvable-target", "async-action", "missing-entry-action"])
     if bad == "async-action" and engine == "async":
         bad = "missing-action"
@@ -100,6 +103,7 @@ def _abort_case(draw, tier):
             continue
         for fam2, key2, i2, t in state_transitions(s):
             if (fam2, key2, i2) == (fam, key, i):
+                bad_mk = t.get("mk")
                 if bad == "missing-action":
                     pos = d.int(1, len(t["actions"]))
                     t["actions"].insert(pos, {"k": "user", "name": "u_missing"})
@@ -120,7 +124,7 @@ def _abort_case(draw, tier):
                             ts = next(c for c in ts["children"] if c["key"] == k)
                         ts.setdefault("entry", []).append({"k": "user", "name": "u_missing"})
     spec["impls"] = {"u_missing": {"k": "missing"}, "u_async": {"k": "async"}}
-    return {"kind": "abort", "engine": engine, "spec": spec, "history": hist, "bad": bad}
+    return {"kind": "abort", "engine": engine, "spec": spec, "history": hist, "bad": bad, "bad_mk": bad_mk, "bad_family": fam}
 
 
 def strategy(tier, campaign):
@@ -188,6 +192,7 @@ def _skeleton(run, ignore_n=False):
             "flow": [(e[0], e[1]) if e[0] != "trans" else ("trans", e[1], tuple(sorted(e[2])), tuple(sorted(e[3])))
                      for e in o.log if e[0] in ("trans", "recv", "life")],
             "subs": [tuple(sorted(e[1])) for e in o.log if e[0] == "sub"],
+            "subs2": [tuple(sorted(e[1])) for e in o.log if e[0] == "sub2"],
         })
     return out
 
@@ -264,7 +269,11 @@ def _judge_twin(engine, spec, free, faulty, site, where, res, tagsfx):
 
 def check_faults(case, res: CaseResult):
     spec, history, engine = case["spec"], case["history"], case["engine"]
-    runf = drivers.ENGINES[engine]
+
+    def runf(spec_, history_, opts_):
+        # a second, never-failing subscriber is registered behind the faultable one
+        return drivers.ENGINES[engine](spec_, history_, dict(opts_, witness_subscriber=True))
+
     free = runf(spec, history, {"record_sites": True})
     if free.create_exc or free.aborted:
         res.inconclusive = free.aborted or "create-exc"
@@ -476,8 +485,17 @@ def check_abort(case, res: CaseResult):
             res.violate(f"{engine}|start-raised-raw-exception|{case['bad']}|{run.steps[0].exc}", {"msg": run.steps[0].extra.get("exc_msg")})
         res.classes.append("abort-in-start")
         return
+    bad_mk = case.get("bad_mk")
     for k, o in enumerate(run.steps):
         aborted_here = False
+        # sync: the aborting error must be raised from the call that was processing. The transition's
+        # leading marker ran but its on_transition hook never came: it was aborted in this step.
+        if engine == "sync" and bad_mk and not o.exc and case["bad"] in ("missing-action", "async-action", "missing-entry-action"):
+            ran = [i_ for i_, e in enumerate(o.log) if e[0] == "act" and e[1] == bad_mk]
+            done = [i_ for i_, e in enumerate(o.log) if e[0] == "trans" and e[1] == bad_mk]
+            if ran and (not done or done[-1] < ran[-1]):
+                res.violate(f"sync|abort-not-raised-from-the-call|{case['bad']}|{case.get('bad_family')}", {"op": o.op, "transition": bad_mk})
+                return
         if engine == "sync" and o.exc:
             aborted_here = True
             if not o.extra.get("exc_is_lib"):
